@@ -89,4 +89,46 @@ theorem tokenize_append_end (a c : List Byte) :
         exact h2 r'' hx (by simp [hr.1, hr.2.1])
   | case4 => simp [endB]
 
+/-- Appending one byte appends one plain token, unless the byte completes a
+marker whose first two bytes end `a`. -/
+theorem tokenize_snoc (a : List Byte) (x : Byte)
+    (h : ¬ ((∃ t, a.reverse = 0x80 :: 0xE2 :: t) ∧ (x = 0xB9 ∨ x = 0xBA))) :
+    tokenize (a ++ [x]) = tokenize a ++ [.b x] := by
+  fun_induction tokenize a with
+  | case1 r ih =>
+    have : ¬ ((∃ t, r.reverse = 0x80 :: 0xE2 :: t) ∧ (x = 0xB9 ∨ x = 0xBA)) := by
+      intro ⟨⟨t, ht⟩, hx⟩
+      exact h ⟨⟨t ++ [0xB9, 0x80, 0xE2], by simp [ht]⟩, hx⟩
+    simp [ih this]
+  | case2 r ih =>
+    have : ¬ ((∃ t, r.reverse = 0x80 :: 0xE2 :: t) ∧ (x = 0xB9 ∨ x = 0xBA)) := by
+      intro ⟨⟨t, ht⟩, hx⟩
+      exact h ⟨⟨t ++ [0xBA, 0x80, 0xE2], by simp [ht]⟩, hx⟩
+    simp [ih this]
+  | case3 y r h1 h2 ih =>
+    have hr : ¬ ((∃ t, r.reverse = 0x80 :: 0xE2 :: t) ∧ (x = 0xB9 ∨ x = 0xBA)) := by
+      intro ⟨⟨t, ht⟩, hx⟩
+      exact h ⟨⟨t ++ [y], by simp [ht]⟩, hx⟩
+    rw [List.cons_append, tokenize_plain y (r ++ [x]), ih hr]
+    · rfl
+    · intro r' hy hrr
+      match r, hrr with
+      | [], hrr => simp at hrr
+      | [z], hrr =>
+        simp at hrr
+        exact h ⟨⟨[], by simp [hy, hrr.1]⟩, Or.inl hrr.2.1⟩
+      | z :: w :: r'', hrr =>
+        simp at hrr
+        exact h1 r'' hy (by simp [hrr.1, hrr.2.1])
+    · intro r' hy hrr
+      match r, hrr with
+      | [], hrr => simp at hrr
+      | [z], hrr =>
+        simp at hrr
+        exact h ⟨⟨[], by simp [hy, hrr.1]⟩, Or.inr hrr.2.1⟩
+      | z :: w :: r'', hrr =>
+        simp at hrr
+        exact h2 r'' hy (by simp [hrr.1, hrr.2.1])
+  | case4 => simp [tokenize_plain]
+
 end Redact
